@@ -1432,13 +1432,24 @@ def run_check(prop, tier):
     outdir = os.path.join(OUT, prop, tier)
     shutil.rmtree(outdir, ignore_errors=True)
     os.makedirs(outdir)
+    # TLC leaves a scratch directory per run in java.io.tmpdir: keep them inside this check's own output directory and remove them
+    jtmp = os.path.join(outdir, "jtmp")
+    os.makedirs(jtmp)
+    os.environ["JAVA_TOOL_OPTIONS"] = "-Djava.io.tmpdir=" + jtmp
     known = load_known()
     results = []
-    for fam in PROPS[prop]["families"]:
-        fdir = os.path.join(outdir, fam)
-        os.makedirs(fdir)
-        results.append(FAMILIES[fam](tier, fdir))
-    return conclude(prop, tier, results, known, outdir, t0)
+    try:
+        for fam in PROPS[prop]["families"]:
+            fdir = os.path.join(outdir, fam)
+            os.makedirs(fdir)
+            results.append(FAMILIES[fam](tier, fdir))
+    finally:
+        shutil.rmtree(jtmp, ignore_errors=True)
+        os.makedirs(jtmp, exist_ok=True)   # (the replay confirmations of conclude() may still start a TLC)
+    try:
+        return conclude(prop, tier, results, known, outdir, t0)
+    finally:
+        shutil.rmtree(jtmp, ignore_errors=True)
 
 
 def conclude(prop, tier, results, known, outdir, t0):
